@@ -16,6 +16,8 @@ def run(tier, seed):
     rep = Report("C03", tier, seed)
     rep.add_mc("MC_Frames", tlc.model_check("MC_Frames", "MC_Frames.cfg" if tier == "thorough" else "MC_Frames_quick.cfg",
                                             must_take=["AddFrame", "Start", "Run"]))
+    rep.add_mc("MC_Frames_frame0(control)", tlc.expect_refuted("MC_Frames", "MC_Frames_frame0.cfg", "VelReadsOK"),
+               note="control: switching files on frame index 0 (pinned design) is refuted for reversed traversal")
     rng = random.Random(seed)
     scs = [time_scenario(rng) for _ in range(6000 if tier == "thorough" else 1200)]
     traces = pmap("harness.forcedrv", "force_trace", scs)
